@@ -45,7 +45,7 @@ Drift(t) ==
 
 VerdictOf(f, d) == IF f # {} THEN "violation:" \o (CHOOSE c \in f : TRUE)
                    ELSE IF d # {} THEN "drift:pick_not_in_spec_candidates" ELSE "ok"
-TInit == tid = 0 /\ n = 0 /\ E0 = {} /\ m0 = 0 /\ G = {} /\ EC = <<>> /\ pool = {} /\ phase = "judge"
+TInit == tid = 0 /\ n = 0 /\ E0 = {} /\ m0 = 0 /\ G = {} /\ EC = <<>> /\ pool = {} /\ phase = "judge" /\ uses = 0
 TNext == /\ tid < Len(Traces) /\ tid' = tid + 1
          /\ LET f == Failed(Traces[tid'])
                 d == Drift(Traces[tid'])
